@@ -54,7 +54,7 @@ def _funcs():
         F[nm] = (n, (lambda f: lambda a, x: f(*a))(getattr(ms, nm)), 'full', True)
     F['true_color'] = (3, lambda a, x: ms.true_color(*a), 'none', True)
     for nm in ('proximity', 'allocation', 'direction'):
-        F[nm] = (1, (lambda f: lambda a, x: f(a[0], max_distance=x['maxd']))(getattr(xrspatial, nm)), 'full', True)
+        F[nm] = (1, (lambda f: lambda a, x: f(a[0], max_distance=(x['maxd'] if x['metric'] == 'EUCLIDEAN' else np.inf), distance_metric=x['metric']))(getattr(xrspatial, nm)), 'full', True)
     F['a_star_search'] = (1, lambda a, x: xrspatial.a_star_search(a[0], x['start'], x['goal'], barriers=[0], snap_start=True, snap_goal=True), 'full', False)
     F['viewshed'] = (1, lambda a, x: xrspatial.viewshed(a[0], x=x['vx'], y=x['vy'], observer_elev=2), 'full', False)
     F['regions'] = (1, lambda a, x: zonal.regions(a[0], neighborhood=x['nb']), 'full', False)
@@ -179,6 +179,8 @@ def _make_args(rng, fname, nargs, dtype, layout, dask, H, W):
         arr = a.astype(dt)
         if np.dtype(dt).kind == 'f' and rng.random() < 0.3 and fname not in ('perlin', 'generate_terrain', 'viewshed', 'a_star_search', 'polygonize') and not fname.startswith('local.'):
             arr[rng.random((H, W)) < 0.1] = np.nan
+            if rng.random() < 0.4:
+                arr[rng.random((H, W)) < 0.08] = np.inf; arr[rng.random((H, W)) < 0.04] = -np.inf
         arr = gen.layout(arr, layout)
         chunks = None
         if dask:
@@ -193,7 +195,8 @@ def _make_args(rng, fname, nargs, dtype, layout, dask, H, W):
         r = gen.mk(arr, attrs=copy.deepcopy(attrs), name='input%d' % i, extra=True, chunks=chunks, **geom)
         args.append(r)
     ys = args[0]['y'].values; xs = args[0]['x'].values
-    aux = dict(passes=int(rng.choice([0, 0, 1, 2])), maxd=float(rng.choice([np.inf, 2 * max(geom['cx'], geom['cy'])])) if not dask else np.inf,
+    gc_ok = float(np.abs(xs).max()) <= 180 and float(np.abs(ys).max()) <= 90
+    aux = dict(passes=int(rng.choice([0, 0, 1, 2, 8, 9])), metric=('GREAT_CIRCLE' if (gc_ok and rng.random() < 0.4) else 'EUCLIDEAN'), maxd=float(rng.choice([np.inf, 2 * max(geom['cx'], geom['cy'])])) if not dask else np.inf,
                start=(float(ys[0]), float(xs[0])), goal=(float(ys[-1]), float(xs[-1])), vx=float(xs[W // 2]), vy=float(ys[H // 2]),
                nb=int(rng.choice([4, 8])), seed=int(rng.integers(0, 50)))
     return args, aux, geom
